@@ -6,6 +6,7 @@
 // - replace this header by the LICENSE.txt content.
 
 #include <operators.h>
+#include <verif_hooks.h>
 
 namespace OpenMEEG {
 
@@ -25,6 +26,7 @@ namespace OpenMEEG {
             const Vertex* vertexp = *(m.vertices().begin()+i);
         #endif
             e.Run([&](){
+                OM_VERIF_ITER(1,vertexp->index());
                 const unsigned vindex = vertexp->index();
                 Vect3 v = Details::operatorFerguson(x,*vertexp,m);
                 mat(offsetI+0,vindex) += v.x()*coeff;
@@ -48,6 +50,7 @@ namespace OpenMEEG {
             const Triangle& triangle = *(m.triangles().begin()+i);
         #endif
             e.Run([&](){
+                OM_VERIF_ITER(2,triangle.index());
                 const analyticDipPotDer anaDPD(dipole,triangle);
                 const auto dipder = [&](const Vect3& r) { return anaDPD.f(r); };
 
@@ -79,6 +82,7 @@ namespace OpenMEEG {
             const Triangle& triangle = *(m.triangles().begin()+i);
         #endif
             e.Run([&](){
+                OM_VERIF_ITER(3,triangle.index());
                 const double d = integrator.integrate(dippot,triangle);
                 rhs(triangle.index()) += d*coeff;
             });
